@@ -21,7 +21,7 @@ RULE = (
     "preconditioning option set, namespace in {numpy, torch}, width, N in [6,28], proposal leak, seeds. For each configuration: "
     "reference run R0 with file checkpointing; then for EVERY likelihood-call index k the run is repeated with an exception raised "
     "at call k, the last checkpoint written is taken and the run is resumed - as bytes, as dict, as file path, through "
-    "Aspire.resume_from_file, and as the state object the interrupted sampler still holds (quick tier: one route per k, cycling; thorough: all five) - with the same arguments and freshly built "
+    "Aspire.resume_from_file, as the state object the interrupted sampler still holds, and as a plain .pkl file holding the payload (quick tier: one route per k, cycling; thorough: all six) - with the same arguments and freshly built "
     "generators of the same seed; every checkpoint of R0 is also resumed directly. Oracle: the resumed run equals R0 bitwise: "
     "history.beta, every stored population (all fields), final x / log L / log pi, log_evidence, log_evidence_error and every "
     "diagnostic series; a crash before the first checkpoint resumes from scratch through resume_from_file and again equals R0. "
@@ -33,7 +33,7 @@ ASSUMPTIONS = [
     "the user's callables are deterministic",
     "runs that raise the documented 'contains NaN values' ValueError are skipped",
 ]
-ROUTES = ["bytes", "dict", "path", "resume_from_file", "live-dict"]
+ROUTES = ["bytes", "dict", "path", "resume_from_file", "live-dict", "pkl-path"]
 
 
 def cases(tier):
@@ -53,9 +53,13 @@ def _resume(case, route, blob, path):
             A = Aspire.resume_from_file(path, log_likelihood=P.log_likelihood, log_prior=P.log_prior)
             kw = P.sample_kwargs(None, None, None)
             return A.sample_posterior(**kw)
-        src = {"bytes": blob, "dict": None, "path": str(path), "live-dict": blob}[route]
+        src = {"bytes": blob, "dict": None, "path": str(path), "live-dict": blob, "pkl-path": None}[route]
         if route == "dict":
             src = pickle.loads(blob)
+        elif route == "pkl-path":  # the payload written to a plain pickle file by the user, resumed by file name
+            src = str(path) + ".ckpt.pkl"
+            with open(src, "wb") as fh:
+                fh.write(blob)
         kw = P.sample_kwargs(None, src, None)
         return P.aspire.sample_posterior(**kw)
     finally:
@@ -135,7 +139,7 @@ def run_case(case, ctx):
             if blob is None:
                 routes = ["resume_from_file"]
             else:
-                routes = ROUTES if tier_all else [ROUTES[k % 5]]
+                routes = ROUTES if tier_all else [ROUTES[k % 6]]
                 if 0 < completed < n_it or (completed == n_it and len(logk.writes) < len(log0.writes)):
                     keys.append({"case": case, "k": k})
             for route in routes:
